@@ -15,6 +15,7 @@ from harness import c03_gen as G
 from harness import c03_passes as P
 from harness import c03_pipeline
 from harness import c03_tables
+from harness import c03_wiring
 
 PROPERTY = "C03"
 LEVEL = "proof"
@@ -22,6 +23,7 @@ LEVEL = "proof"
 
 def regenerate(ctx):
     ctx.pipeline_info = c03_pipeline.regenerate(ctx)
+    ctx.wiring_info = c03_wiring.regenerate(ctx)
     return c03_tables.regenerate(ctx)
 
 
@@ -71,6 +73,9 @@ def run(ctx):
     pinfo = getattr(ctx, "pipeline_info", None)
     ctx.obligation("translator: pass list of optimize_ir read from the source (constructor names, arguments, order, PassManager wiring, inline prefix)",
                    pinfo is not None, str(pinfo)[:600] if pinfo else "not recognised")
+    winfo = getattr(ctx, "wiring_info", None)
+    ctx.obligation("translator: how every option of optimize / optimize_ir / fold_constants reaches FoldConstantsPass / PassManager (call sites, keywords, defaults)",
+                   winfo is not None, str(winfo))
     pc = P.PassChecker(ctx, "C03")
     n_pass_dag = 25 if quick else 150
 
